@@ -255,6 +255,9 @@ def explore_case(modname, case, limits):
 
 def replay_candidate(cand):
     """run the harness concretely (sys.path must point at the real tree)"""
+    if cand['module'].startswith('xh:'):
+        import xh
+        return _jsonable(xh.replay(cand))
     mod = load_harness(cand['module'])
     case = cand['case']
     fn = getattr(mod, case['fn'])
